@@ -1,4 +1,5 @@
 import Vet.Props.C08
+import Vet.Props.C08Policies
 #print axioms Vet.C08_registry_always
 #print axioms Vet.C08_unpublished_choice
 #print axioms Vet.C08_exact_iff
@@ -9,3 +10,8 @@ import Vet.Props.C08
 #print axioms Vet.C08_checks
 #print axioms Vet.C08_stale_unpublished_kept
 #print axioms Vet.C08_exact_version
+#print axioms Vet.Pol.C08_crate_policies
+#print axioms Vet.Pol.C08_crate_policies_impl
+#print axioms Vet.Pol.checkImpl_nil_iff
+#print axioms Vet.Pol.checkImpl_spurious_needsVersion
+#print axioms Vet.Pol.crate_policies_example
